@@ -99,12 +99,15 @@ inductive POut
   | fail                 -- parser stops with an error (malformed SELECT)
   deriving DecidableEq, Repr
 
-/-- D23 repair: the EXEC of a transaction that switched to a filtered database is
-    still handed to the sender (which would otherwise stay inside the transaction),
-    carrying the offset of the last command handed over — so the resume position
-    never moves into the filtered region, where a restart could not know that the
-    source is in a filtered database. Every other command is withheld in bypass. -/
-def closesTxn (s : PState) (cmd : Bytes) : Bool := s.bypass && decide (cmd = bExec) && s.txnOpen
+/-- D23 repair: transaction brackets reach the sender even while the source is in a
+    filtered database -- a withheld EXEC would leave the sender inside the
+    transaction, a withheld MULTI would let the commands of a transaction that
+    leaves the filtered database run outside a transaction. There they carry the
+    offset of the last command handed over, so the resume position never moves into
+    the filtered region (a restart there could not know that the source is in a
+    filtered database). Every other command is withheld in bypass. -/
+def passBracket (s : PState) (cmd : Bytes) : Bool :=
+  s.bypass && ((decide (cmd = bMulti) && !s.txnOpen) || (decide (cmd = bExec) && s.txnOpen))
 
 /-- bookkeeping after a command was handed to the sender -/
 def sent (s : PState) (cmd : Bytes) (off : Int) : PState :=
@@ -143,11 +146,11 @@ def parseStep (c : PCfg) (s : PState) (r : Raw) : PState × POut :=
     | _ => (s, .fail)
   else if c.filterCmd r.cmd then (s, .skip)
   else if r.cmd = bPublish ∧ (r.args.head?.map lower) = some bSentinelHello then (s, .skip)
-  else if s.bypass ∧ closesTxn s r.cmd = false then (s, .skip)
+  else if s.bypass ∧ passBracket s r.cmd = false then (s, .skip)
   else match c.filterCmdKey r.cmd r.args with
     | none => (s, .skip)
     | some a =>
-      let off := if closesTxn s r.cmd then s.lastSent else r.off
+      let off := if passBracket s r.cmd then s.lastSent else r.off
       (sent s r.cmd off, .emit { cmd := r.cmd, args := a, offset := off, db := s.currentDB })
 
 /-- the whole parser on a list of decoded commands: emitted items (in order);
@@ -169,6 +172,12 @@ def parserItems (c : PCfg) (startOff : Int) (raws : List Raw) : List Item :=
 
 inductive Txn | no | barrier | begin_ | in_ | commit
   deriving DecidableEq, Repr
+
+/-- between a MULTI and its EXEC -/
+def inT : Txn → Bool
+  | .begin_ => true
+  | .in_ => true
+  | _ => false
 
 def cmdClass (cmd : Bytes) : Option Txn :=
   if cmd = bSelect then some .barrier
